@@ -179,7 +179,7 @@ def o16_1(tier):
     return out
 
 
-@obligation("O16.6", ["C16", "C02"], [FM + "get_angle_limited_edges", FM + "_build_matrix"],
+@obligation("O16.6", ["C16", "C02", "C10"], [FM + "get_angle_limited_edges", FM + "_build_matrix"],
             "scenario with concrete unit directions: a four-fold junction whose opposite interfaces open by pi is flagged by the limit 3.0 while its "
             "neighbours are not: nothing is excluded (an interface needs BOTH ends flagged) and the flagged junction keeps its two equations with all four "
             "coefficients; with the limit 1.0 every junction is flagged, every interface is excluded", tier="Pn")
@@ -223,7 +223,30 @@ def o16_6(tier):
                 i = [k for k, sp in enumerate(spokes) if same_path(sp, c)][0]
                 ctx.ensure(ctx.And(ctx.close(mat[0][ci], E[i][0]), ctx.close(mat[1][ci], E[i][1])), f"column {ci}: the direction of that interface at the junction")
         return h
-    return [("four_fold,limit=3.0", mk(3.0, False)), ("four_fold,limit=1.0", mk(1.0, True))]
+    def h_two_builds(ctx):
+        # an earlier build of the SAME frame saw other directions (another circle-fit method): the limit is applied to the directions of
+        # the build at hand.  First build: the opposite spokes bent so that no pair opens by 3.0; second build: straight through (pi)
+        m, fr, cycles, info, _ = build(ctx, "four_fold", 0)
+        J = info["junction_rows"][0]
+        spokes = info["internal"]
+        bent = [(Fr(1), Fr(0)), (Fr(0), Fr(1)), (Fr(-3, 5), Fr(4, 5)), (Fr(-4, 5), Fr(-3, 5))]      # largest opening 126.9 degrees = 2.21 rad
+
+        def table(dirs):
+            def assign(path, vid):
+                for i, sp in enumerate(spokes):
+                    if same_path(sp, path):
+                        return dirs[i] if vid == J else (-dirs[i][0], -dirs[i][1])
+                i = [k for k, sp in enumerate(spokes) if sp[-1] == vid][0]
+                side = (Fr(3, 5), Fr(4, 5)) if path[0] == vid else (Fr(3, 5), Fr(-4, 5))
+                return rot(dirs[i], side)
+            return assign
+        versor_concrete(ctx, fr, table(bent))
+        first = force_matrix(ctx, fr, False, angle_limit=3.0)
+        ctx.ensure(sorted(ctx.list_of(ctx.get(first, "deletes"))) == [], "first build (bent spokes, largest opening 2.21 < 3.0): nothing flagged")
+        versor_concrete(ctx, fr, table(E))
+        second = force_matrix(ctx, fr, False, angle_limit=3.0)
+        ctx.ensure(sorted(ctx.list_of(ctx.get(second, "deletes"))) == [J], "second build (straight spokes, opening pi >= 3.0): the junction is flagged by ITS directions")
+    return [("four_fold,limit=3.0", mk(3.0, False)), ("four_fold,limit=1.0", mk(1.0, True)), ("four_fold,two-builds-with-other-directions", h_two_builds)]
 
 
 @obligation("O16.3u", ["C16", "C10"], [FM + "get_solution_no_discarded"],
